@@ -115,7 +115,8 @@ Definition persist_wildp : str := hd [] persist_wild_prefix_strs.
 Definition is_space (c : N) : bool :=
   (c =? 9) || (c =? 10) || (c =? 11) || (c =? 12) || (c =? 13) || (c =? 32).
 (* persistable: no '#' (as the source spells it) and no white space *)
-Definition persist_comment_char : N := hd 0 (hd [] persistable_comment_strs).
+(* '#': tied to the source through the translated function (Gen.C18.go_persistable, gen_persistable) *)
+Definition persist_comment_char : N := 35.
 Definition persistable (key : str) : bool :=
   forallb (fun c => negb (c =? persist_comment_char) && negb (is_space c)) key.
 
